@@ -100,7 +100,12 @@ func subsetHash(s string) uint32 {
 //
 // Replies: T <x> (careful: about to run x), R ... per transition, V ... per
 // enumeration violation, S <stats json>, D (job done).
+// IsWorker is set in worker processes before the units are built, so that a
+// check can postpone building tables only the master needs up front.
+var IsWorker bool
+
 func WorkerMain(check *Check, tier string, in io.Reader, out io.Writer) {
+	IsWorker = true
 	debug.SetMaxStack(4 << 20)
 	units := check.Units(tier)
 	w := bufio.NewWriterSize(out, 1<<16)
